@@ -5,7 +5,7 @@ HDR = [('VERSION', 3), ('TYPE', 1), ('SEC_HDR_FLG', 1), ('PKT_APID', 11), ('SEQ_
        ('PKT_LEN', 16)]
 
 
-def gen_definition(rng, rich=True):
+def gen_definition(rng, rich=True, styles=None):
     """recipe of a definition: CCSDS header root, 2..4 children selected by restriction criteria (APID equality,
     ranges that may overlap, BooleanExpression), optional grandchildren selected on a decoded MODE field, nested
     container references, all parameter kinds"""
@@ -61,9 +61,15 @@ def gen_definition(rng, rich=True):
     apids = rng.sample(range(1, 40), nchild)
     for i in range(nchild):
         cname = f"C{i}"
-        style = rng.choice(['eq', 'eq', 'range', 'bool', 'raw', 'eq+type', 'bool2'])
+        style = styles[i % len(styles)] if styles else rng.choice(['eq', 'eq', 'range', 'bool', 'raw', 'eq+type', 'bool2'])
         if style == 'eq':
             crit = [['cmp', apid_name, '==', str(apids[i]), True]]
+        elif style == 'eq0':
+            # every child of this style selects the SAME APID (the first one) ...
+            crit = [['cmp', apid_name, '==', str(apids[0]), True]]
+        elif style == 'flag':
+            # ... and this one a header flag: packets of that APID with the flag set match two children (ambiguous)
+            crit = [['cmp', 'SEC_HDR_FLG', '==', '1', True]]
         elif style == 'bool2':
             # a two-parameter Condition with different calibrated/raw selectors on its two sides
             crit = [['bool', {'k': 'and', 'c': [[apid_name, '==', str(apids[i])],
